@@ -448,6 +448,19 @@ def run_order(tpl):
             out.update(status="not_encoded", reason="SQL: %s" % str(e)[:200])
             return out
         ctx = case.ctx
+        # the statement's preconditions (total analytic orderings ...) are the reference's domain constraints
+        domain = []
+        try:
+            from vt.spec import ref as REF
+            ref_cls = REF.Ref
+            if tpl.get("evaluator") == "time":
+                from vt.spec.timeref import TimeRef
+                ref_cls = TimeRef
+            rf = ref_cls(ctx, case.inputs, scalars=tpl.get("ref_scalars"))
+            rf.run(tpl["ast"])
+            domain = list(rf.domain)
+        except Unsupported:
+            domain = []
         ords = [v for v in ctx.input_vars if v.sort() == z3.IntSort() and ".o" in str(v) and str(v).split(".")[-1].startswith("o")]
         ords2 = [z3.Int(str(v) + "'") for v in ords]
         sub = list(zip(ords, ords2))
@@ -466,6 +479,7 @@ def run_order(tpl):
             s.set("timeout", tpl.get("timeout_ms", 20000))
             s.add(*ctx.assume)
             s.add(*assume2)
+            s.add(*domain)
             s.push()
             s.add(z3.Or(*[r.present for r in T.rows]))
             if s.check() == z3.unsat:
